@@ -963,10 +963,10 @@ def a2_wrong(meta, lines, tol=1e-6):
 
 
 def a2_lost(impl, model):
-    """coordinate groups the model publishes and the implementation does not"""
+    """coordinate groups the model publishes and the implementation leaves in its `missing` set"""
     pi, pm = a2_points(impl), a2_points(model)
     return [f"{k}.{w}" for k, tb in pm.items() if k in pi
-            for w, j in (("xy", 2), ("z", 5)) if tb[j] == "1" and pi[k][j] != "1"]
+            for w, j, miss in (("xy", 2, 7), ("z", 5, 8)) if tb[j] == "1" and pi[k][j] != "1" and pi[k][miss] == "1"]
 
 
 def a2_insertion_faster(impl, model):
@@ -974,8 +974,18 @@ def a2_insertion_faster(impl, model):
     missing than the model (strictly fewer at least once): solve_insertion reached a point a turn earlier than the documented strategies, with the same
     value (to tolerance)"""
     pi, pm = a2_points(impl), a2_points(model)
-    if list(pi) != list(pm) or not all(lines_equal(" ".join(pi[k]), " ".join(pm[k]), rtol=1e-9, atol=1e-7) for k in pi):
+    if list(pi) != list(pm):
         return False
+    for k, ta in pi.items():
+        tb = pm[k]
+        for flag, vals, miss in ((2, (3, 4), 7), (5, (6,), 8)):
+            if ta[flag] == "1":
+                if tb[flag] != "1" or not all(tok_equal(ta[j], tb[j], rtol=1e-9, atol=1e-7) for j in vals):
+                    return False
+            elif tb[flag] == "1" and ta[miss] != "0":
+                # model only: tolerated for a coordinate group that was never in a `missing` set (the strategies compute
+                # such groups as long as the loop runs; the implementation's loop ended a turn earlier)
+                return False
     ri = [l.split() for l in impl if l.startswith("r ")]
     rm = [l.split() for l in model if l.startswith("r ")]
     if not (0 < len(ri) <= len(rm)) or ri == rm:
